@@ -248,6 +248,31 @@ Fixpoint scan12b (seen : list entry) (h : list (aop * ares * deliveries)) : bool
                   end) rest
   end.
 
+(** ---- C07 through the client API: capabilities tracked from the acknowledged imports; a document whose
+         write secret was imported accepts local writes, a read-only one refuses them ---- *)
+Fixpoint scan07a (caps : list (N * bool)) (h : list (aop * ares * deliveries)) : bool :=
+  match h with
+  | [] => true
+  | (o, r, _) :: rest =>
+      let writable ns := StoreProps.assoc_get ns caps in
+      (match o with
+       | AInsertLocal ns _ true _ _ _ _ | ADeletePrefix ns _ true _ _ =>
+           match writable ns with
+           | Some true => negb (is_err r (AInsert EReadOnly))
+           | Some false => match r with AOk | ACount _ => false | _ => true end
+           | None => true
+           end
+       | _ => true
+       end)
+      && scan07a (match o, r with
+                  | AImport ns c, AOk =>
+                      let w := match writable ns, c with Some true, _ => true | _, Some _ => true | _, None => false end in
+                      StoreProps.assoc_set ns w caps
+                  | ADrop ns, AOk => StoreProps.assoc_del ns caps
+                  | _, _ => caps
+                  end) rest
+  end.
+
 Definition final_eqb (a b : N * list entry) : bool := (fst a =? fst b) && list_eqb entry_eqb (snd a) (snd b).
 
 (** replies only (the concurrent phase does not look at event deliveries) *)
@@ -280,6 +305,7 @@ Definition check (c : case) : N :=
   let m2 := if c_prop c =? 14 then scan14_c (c_cancelled c) (mkT14 [] []) (c_hist c) 1 && shutdown_ok c' && c_inflight_answered c
                                    (* the sequential part agrees with the model, the concurrent replies admit no order *)
                                    && ((negb (bad =? 0)) || lin)
+            else if c_prop c =? 7 then scan07a [] (c_hist c)
             else scan12 (mkT12 [] [] [] (mkT14 [] [])) (c_hist c)
                  && scan12a (flat_map snd (c_final c)) (flat_map (fun x => carried12 (fst (fst x), snd (fst x))) acks)
                             (mkT12 [] [] [] (mkT14 [] [])) (c_hist c)
